@@ -292,8 +292,13 @@ func c16KillScenarios() []c16KillScenario {
 	return []c16KillScenario{
 		{"no-snapshot", keep, f("W3 SW"), f("W1 SW W1 SW"), f("W1 SW W3 SW")},
 		{"snapshot-behind-follower", keep, f("W3 SW SNAP W1 SW"), f("W1 SW"), f("W1 SW")},
+		// the largest page size (stored as 1 in the two-byte header field the follow loop reads from its output) and
+		// the smallest next to it: the convergence half hands the page size to the apply step itself, only the real
+		// follow loop of this half decodes it
+		{"page-size-65536", cfgWith(func(c *scn.Config) { c.PageSize = 65536; c.L0RetentionNS = int64(1000 * time.Hour) }), f("W1 SW"), f("W1 SW"), f("W1 SW")},
 		{"l0-compacted-away", prune, f("W3 SW W1 SW"), f("W1 SW"), f("W1 SW CMP:1 W1 SW CMP:1 CMP:2 W1 SW")},
 		{"shrink", cfgWith(func(c *scn.Config) { c.AutoVacuum = "INCREMENTAL"; c.L0RetentionNS = int64(1000 * time.Hour) }), f("W3 W3 SW"), f("D SW"), f("IVAC SW W1 SW")},
+		{"page-size-1024", cfgWith(func(c *scn.Config) { c.PageSize = 1024; c.L0RetentionNS = int64(1000 * time.Hour) }), f("W1 SW"), f("W1 SW"), f("W1 SW")},
 	}
 }
 
@@ -349,7 +354,19 @@ func c16RunKill(sc c16KillScenario, K int, traceFile string) (res c16KillResult)
 	for _, op := range sc.S1b {
 		s.Do(op)
 		if op == "SW" {
-			do(fmt.Sprintf("FWAIT:%d", s.RemoteMaxL0()))
+			want := s.RemoteMaxL0()
+			if K == 0 && !dead {
+				// the fault-free run is judged too: the real follow loop must reach every acknowledged TXID
+				// (the convergence half drives the apply step directly and never runs this loop)
+				if r, err := p.Do(fmt.Sprintf("FWAIT:%d", want)); err != nil {
+					dead = true
+				} else if r != "ok" {
+					res.Problems = append(res.Problems, &scn.Problem{Kind: "follower-did-not-converge", Detail: fmt.Sprintf("no kill: the follower did not reach TXID %d within the wait (%s) [%s]", want, r, scn.Shape(s.ReplicaDir))})
+					break
+				}
+				continue
+			}
+			do(fmt.Sprintf("FWAIT:%d", want))
 		}
 	}
 	do("FSTOP")
@@ -503,7 +520,7 @@ func c16(args []string) int {
 	}
 	kscs := c16KillScenarios()
 	if !thorough {
-		kscs = kscs[:2]
+		kscs = kscs[:3]
 	}
 	killDeadline := t0.Add(budget * 2 / 5)
 	tmp := filepath.Join(scn.ScratchRoot, fmt.Sprintf("lsmc-%d-c16", os.Getpid()))
@@ -517,6 +534,17 @@ func c16(args []string) int {
 		if r0.Harness != nil {
 			fmt.Fprintln(os.Stderr, "HARNESS ERROR (no verdict):", r0.Harness)
 			return 2
+		}
+		if len(r0.Problems) > 0 {
+			again := c16RunKill(sc, 0, tf)
+			if sameProblems(r0.Problems, again.Problems) {
+				for _, p := range r0.Problems {
+					killRep.Report(&ev.Violation{Kind: p.Kind, Signature: fmt.Sprintf("%s|no-kill|%s", p.Kind, sc.Name), Detail: map[string]any{"scenario": sc, "problem": p.String()}})
+				}
+				fmt.Printf("[C16] kill scenario %-26s the fault-free follower does not converge; kill points not run\n", sc.Name)
+				killExhaustive = false
+				continue
+			}
 		}
 		tr, _ := parseTrace(tf)
 		n := 0
